@@ -5,7 +5,12 @@
     the stale-initial-future fix (corpus witnesses, model only).
     shapes: 0..3 as in Async.v (0 with wrap 2: new_unsync + tracked refetch counter, what
     LocalResource::new builds; wrap 3 / 4: the real ArcLocalResource::new / LocalResource::new, whose
-    Executor::tick() tasks the harness runs at once, so that a load starts within one poll); 4: leptos_server ArcResource::new / Resource::new (wrap 1);
+    Executor::tick() tasks the harness runs at once, so that a load starts within one poll; wrap
+    5..7: arena handles in LocalStorage / converted from the Arc type, plain nodes for the model);
+    for shapes 4 and 5 the wrap selects the constructor and whether the harness goes through the
+    wrapper's own impls — the same node for the model;
+    optional trailing fields of events: (2 v mode) how the manual write is made, (7 sus 1) await
+    through by_ref(); 4: leptos_server ArcResource::new / Resource::new (wrap 1);
     5: ArcOnceResource::new / OnceResource::new (wrap 1).
     events: (0 i v) write signal i, (1) refetch, (2 v) manual set Some(v), (3) notify,
             (4 f) complete future f, (5 t) poll task t (0 = node, 1 = dependent effect),
@@ -76,7 +81,7 @@ Definition run_C10 (x : sexp) : sexp :=
   let c := mkCfg (match sh with 4%nat => 3%nat | 5%nat => 0%nat | n => n end) (as_nat (nth_s 2 x))
                  (negb (Z.eqb variant 1)) (negb (Z.eqb variant 2) && negb (Z.eqb variant 1))
                  (Z.eqb variant 0)
-                 (Nat.eqb sh 0 && Nat.leb 2 wrap) (Nat.eqb sh 5) the_fetch in
+                 (Nat.eqb sh 0 && Nat.leb 2 wrap && Nat.leb wrap 4) (Nat.eqb sh 5) the_fetch in
   let s0 := init c (as_opt as_Z (nth_s 3 x)) in
   let '(t, s1) := trace c s0 (as_list (nth_s 4 x)) in
   let s2 := settle c 16 s1 in
